@@ -168,43 +168,46 @@ Proof. intros [[] [] [] []]; reflexivity. Qed.
 Lemma reload_trace_wf : wf reload_trace = true.
 Proof. reflexivity. Qed.
 
-Lemma code_traces_wf : forall reqs m, forallb wf (map trace_of_req reqs ++ repeat reload_trace m) = true.
+Lemma code_traces_wf : forall reqs m f, forallb wf (code_traces reqs m f) = true.
 Proof.
-  intros. rewrite forallb_app. apply andb_true_iff. split.
+  intros. unfold code_traces. rewrite !forallb_app. rewrite !andb_true_iff. repeat split.
   - induction reqs; simpl; auto. rewrite trace_of_req_wf. auto.
   - induction m; simpl; auto.
+  - induction f; simpl; auto.
 Qed.
 
-Lemma code_wf_init : forall v reqs m, wf_init (code_cfg v reqs m).
-Proof. intros. exists v, (map trace_of_req reqs ++ repeat reload_trace m). split; auto. apply code_traces_wf. Qed.
+Lemma code_wf_init : forall v reqs m f, wf_init (code_cfg v reqs m f).
+Proof. intros. exists v, (code_traces reqs m f). split; auto. apply code_traces_wf. Qed.
 
-Lemma code_deadlock_free : forall v reqs m c, reach (code_cfg v reqs m) c ->
+Lemma code_deadlock_free : forall v reqs m f c, reach (code_cfg v reqs m f) c ->
   all_done c = true \/ exists i c', step c i = Some c'.
 Proof. intros. eapply wf_trace_deadlock_free; eauto. apply code_wf_init. Qed.
 
-Lemma code_request_one_selector : forall v reqs m c j t,
-  reach (code_cfg v reqs m) c -> j < length reqs -> nth_error (threads c) j = Some t ->
+Lemma code_request_one_selector : forall v reqs m f c j t,
+  reach (code_cfg v reqs m f) c -> j < length reqs -> nth_error (threads c) j = Some t ->
   exists u, v <= u <= ver c /\ forall x, In x (concat (tlog t)) -> x = u.
 Proof.
-  intros v reqs m c j t R Hj Ht.
+  intros v reqs m f c j t R Hj Ht.
   destruct (nth_error_lt_some reqs j Hj) as [k Hk].
   eapply one_section_one_selector with (l0 := trace_of_req k); eauto.
   - apply code_traces_wf.
-  - rewrite nth_error_app1 by (rewrite map_length; auto). rewrite nth_error_map, Hk. reflexivity.
+  - unfold code_traces. rewrite nth_error_app1 by (rewrite map_length; auto). rewrite nth_error_map, Hk. reflexivity.
   - rewrite trace_of_req_one_rlock. auto.
 Qed.
 
 Lemma count_swap_reqs : forall reqs, list_sum (map (fun t => count_swap (todo t)) (map fresh (map trace_of_req reqs))) = 0.
 Proof. induction reqs as [|[[] [] [] []] r]; simpl; auto. Qed.
 
-Lemma code_reloads_take_effect : forall v reqs m c,
-  reach (code_cfg v reqs m) c -> all_done c = true -> ver c = v + m.
+Lemma code_reloads_take_effect : forall v reqs m f c,
+  reach (code_cfg v reqs m f) c -> all_done c = true -> ver c = v + m.
 Proof.
-  intros v reqs m c R D. pose proof (reach_swaps _ _ R) as S1.
+  intros v reqs m f c R D. pose proof (reach_swaps _ _ R) as S1.
   rewrite (all_done_no_swaps _ D) in S1. simpl in S1.
-  unfold swaps_left, code_cfg, init_cfg in S1. simpl in S1.
-  rewrite map_app, map_app, list_sum_app, count_swap_reqs in S1.
+  unfold swaps_left, code_cfg, init_cfg, code_traces in S1. simpl in S1.
+  rewrite !map_app, !list_sum_app, count_swap_reqs in S1.
   assert (list_sum (map (fun t => count_swap (todo t)) (map fresh (repeat reload_trace m))) = m) as E.
   { clear. induction m; simpl; auto. }
-  rewrite E in S1. lia.
+  assert (list_sum (map (fun t => count_swap (todo t)) (map fresh (repeat reload_fail_trace f))) = 0) as E0.
+  { clear. induction f; simpl; auto. }
+  rewrite E, E0 in S1. lia.
 Qed.
